@@ -573,8 +573,10 @@ func dupArguments(args []*nast.Argument) []Offence {
 func uniqueArgumentNames(c *ctx) []Offence {
 	var out []Offence
 	c.walk(&hooks{
-		field:     func(f *nast.Field, parent string, def *fdef) { out = append(out, dupArguments(f.Args)...) },
-		directive: func(d *nast.Directive, owner nast.Node, def *model.DirectiveDef) { out = append(out, dupArguments(d.Args)...) },
+		field: func(f *nast.Field, parent string, def *fdef) { out = append(out, dupArguments(f.Args)...) },
+		directive: func(d *nast.Directive, owner nast.Node, def *model.DirectiveDef) {
+			out = append(out, dupArguments(d.Args)...)
+		},
 	})
 	return out
 }
